@@ -21,6 +21,10 @@ pub assume_specification<T, F: FnOnce(T) -> bool> [Option::<T>::is_some_and] (o:
     ensures match o { Some(v) => f.ensures((v,), r), None => !r };
 pub assume_specification<T, E> [Option::<core::result::Result<T, E>>::transpose] (o: Option<core::result::Result<T, E>>) -> (r: core::result::Result<Option<T>, E>)
     ensures r == (match o { Some(Ok(x)) => Ok::<Option<T>,E>(Some(x)), Some(Err(e)) => Err::<Option<T>,E>(e), None => Ok::<Option<T>,E>(None) });
+pub assume_specification<T, E> [core::result::Result::<Option<T>, E>::transpose] (o: core::result::Result<Option<T>, E>) -> (r: Option<core::result::Result<T, E>>)
+    ensures r == (match o { Ok(Some(x)) => Some(Ok::<T,E>(x)), Ok(None) => None::<core::result::Result<T,E>>, Err(e) => Some(Err::<T,E>(e)) });
+pub assume_specification<T> [Option::<T>::or] (a: Option<T>, b: Option<T>) -> (r: Option<T>)
+    ensures r == (if a is Some { a } else { b });
 pub assume_specification<T> [Option::<Option<T>>::flatten] (o: Option<Option<T>>) -> (r: Option<T>)
     ensures r == (match o { Some(x) => x, None => None::<T> });
 // R4d: &[u8] -> [u8; N] where the caller knows the length (`.try_into().unwrap()`)
@@ -29,6 +33,8 @@ impl<'a> VxIntoArr for &'a [u8] {
     open spec fn vx_view(self) -> Seq<u8> { self@ }
     #[verifier::external_body] fn vx_into_arr<const N: usize>(self) -> (r: [u8; N]) { self.try_into().unwrap() }
 }
+pub assume_specification<T: Clone> [<[T]>::to_vec] (s: &[T]) -> (r: Vec<T>)
+    ensures r@ == s@;
 // R6: Option<Vec<T>>::as_deref (Deref-generic in std)
 pub trait VxAsDeref<T> { fn vx_as_deref(&self) -> (r: Option<&[T]>) ensures vx_opt_slice_view(r) == self.vx_spec_view(); spec fn vx_spec_view(&self) -> Option<Seq<T>>; }
 pub open spec fn vx_opt_slice_view<T>(o: Option<&[T]>) -> Option<Seq<T>> { match o { Some(s) => Some(s@), None => None } }
@@ -43,7 +49,8 @@ impl<T> VxAsDeref<T> for Option<Vec<T>> {
 pub mod coset { use vstd::prelude::*;
     #[verifier::external_body] pub struct CoseKey { _p: u8 }
     impl Clone for CoseKey { #[verifier::external_body] fn clone(&self) -> (r: Self) ensures r == *self { unimplemented!() } }
-    pub mod iana { #[derive(Clone, Copy, PartialEq, Eq)] pub enum Algorithm { ES256, Other(i64) } }
+    pub mod iana { #[derive(Clone, Copy, PartialEq, Eq)] pub enum Algorithm { ES256, Other(i64) }
+        #[allow(non_camel_case_types)] #[derive(Clone, Copy)] pub enum EllipticCurve { P_256, Other(i64) } }
     pub mod cbor { pub mod value { use vstd::prelude::*;
         #[verifier::external_body] pub struct ValueOpaque { _p: u8 }
         impl Clone for ValueOpaque { #[verifier::external_body] fn clone(&self) -> (r: Self) ensures r == *self { unimplemented!() } }
@@ -55,6 +62,7 @@ pub use coset::iana;
 pub struct Bytes(pub Vec<u8>);
 impl View for Bytes { type V = Seq<u8>; open spec fn view(&self) -> Seq<u8> { self.0@ } }
 impl Clone for Bytes { #[verifier::external_body] fn clone(&self) -> (r: Self) ensures r == *self { Bytes(self.0.clone()) } }
+impl core::ops::Deref for Bytes { type Target = Vec<u8>; fn deref(&self) -> (r: &Vec<u8>) ensures *r == self.0 { &self.0 } }
 impl vstd::std_specs::convert::FromSpecImpl<Vec<u8>> for Bytes {
     open spec fn obeys_from_spec() -> bool { true }
     open spec fn from_spec(v: Vec<u8>) -> Bytes { Bytes(v) }
@@ -190,7 +198,6 @@ pub mod passkey_types {
             }
             //@ extract xhm impl HmacSecretSaltOrOutput
             //@   only new first second
-            //@   external_body new
         }
         pub mod make_credential {
             use super::*;
@@ -207,6 +214,8 @@ pub mod passkey_types {
             //@ extract mctypes impl From<webauthn::PublicKeyCredentialUserEntity> for PublicKeyCredentialUserEntity
             //@ extract mctypes struct Options
             //@ extract mctypes struct ExtensionInputs
+            //@ extract mctypes impl ExtensionInputs
+            //@ extract mctypes impl UnsignedExtensionOutputs
             //@ extract mctypes struct Response
             //@   deep
             //@ extract mctypes struct SignedExtensionOutputs
@@ -233,6 +242,8 @@ pub mod passkey_types {
             //@ extract gatypes struct Request
             //@   deep
             //@ extract gatypes struct ExtensionInputs
+            //@ extract gatypes impl ExtensionInputs
+            //@ extract gatypes impl UnsignedExtensionOutputs
             //@ extract gatypes struct Response
             //@   deep
             //@ extract gatypes struct SignedExtensionOutputs
@@ -305,13 +316,53 @@ pub mod p256 {
 pub mod rand { pub struct ThreadRng { pub opaque: u8 } #[verifier::external_body] pub fn thread_rng() -> ThreadRng { unimplemented!() } }
 impl SecretKey { #[verifier::external_body] pub fn random(rng: &mut rand::ThreadRng) -> SecretKey { unimplemented!() } }
 // COSE encodings of an EC2 key pair (coset builders are assumed: new_ec2_pub_key has no `d` parameter)
-pub uninterp spec fn spec_pub_of(sk: SecretKey, alg: iana::Algorithm) -> CoseKey;
-pub uninterp spec fn spec_priv_of(sk: SecretKey, alg: iana::Algorithm) -> CoseKey;
 use coset::iana::Algorithm;
 //@ source lib passkey-authenticator/src/lib.rs
 //@ extract lib struct CoseKeyPair
+// ---- p256 / coset models for CoseKeyPair::from_secret_key (trusted): the affine coordinates of the public
+//      point of a secret, and the two coset key builders.  `new_ec2_pub_key` has no private-scalar parameter.
+pub uninterp spec fn spec_pub_x(sk: SecretKey) -> Seq<u8>;
+pub uninterp spec fn spec_pub_y(sk: SecretKey) -> Seq<u8>;
+pub uninterp spec fn spec_scalar(sk: SecretKey) -> Seq<u8>;
+pub uninterp spec fn spec_ec2_pub(x: Seq<u8>, y: Seq<u8>, alg: iana::Algorithm) -> CoseKey;
+pub uninterp spec fn spec_ec2_priv(x: Seq<u8>, y: Seq<u8>, d: Seq<u8>, alg: iana::Algorithm) -> CoseKey;
+pub mod keymodel {
+    use super::*;
+    pub struct VerifyingKey { pub sk: Ghost<SecretKey> }
+    pub struct EncodedPoint { pub sk: Ghost<SecretKey> }
+    pub struct Coord { pub v: Ghost<Seq<u8>> }
+    pub struct ScalarBytes { pub v: Ghost<Seq<u8>> }
+    impl crate::p256::ecdsa::SigningKey {
+        #[verifier::external_body] pub fn verifying_key(&self) -> (r: VerifyingKey) ensures r.sk@ == self.sk { unimplemented!() }
+    }
+    impl vstd::std_specs::convert::FromSpecImpl<&SecretKey> for crate::p256::ecdsa::SigningKey {
+        open spec fn obeys_from_spec() -> bool { true }
+        open spec fn from_spec(sk: &SecretKey) -> crate::p256::ecdsa::SigningKey { crate::p256::ecdsa::SigningKey { sk: *sk } }
+    }
+    impl From<&SecretKey> for crate::p256::ecdsa::SigningKey { #[verifier::external_body] fn from(sk: &SecretKey) -> Self { unimplemented!() } }
+    impl VerifyingKey { #[verifier::external_body] pub fn to_encoded_point(&self, compress: bool) -> (r: EncodedPoint) ensures r.sk@ == self.sk@ { unimplemented!() } }
+    impl EncodedPoint {
+        #[verifier::external_body] pub fn x(&self) -> (r: Option<Coord>) ensures r matches Some(c) && c.v@ == spec_pub_x(self.sk@) { unimplemented!() }
+        #[verifier::external_body] pub fn y(&self) -> (r: Option<Coord>) ensures r matches Some(c) && c.v@ == spec_pub_y(self.sk@) { unimplemented!() }
+    }
+    impl Coord { #[verifier::external_body] pub fn as_slice(&self) -> (r: &[u8]) ensures r@ == self.v@ { unimplemented!() } }
+    impl SecretKey { #[verifier::external_body] pub fn to_bytes(&self) -> (r: ScalarBytes) ensures r.v@ == spec_scalar(*self) { unimplemented!() } }
+    impl ScalarBytes { #[verifier::external_body] pub fn to_vec(&self) -> (r: Vec<u8>) ensures r@ == self.v@ { unimplemented!() } }
+    pub struct CoseKeyBuilder { pub x: Ghost<Seq<u8>>, pub y: Ghost<Seq<u8>>, pub d: Ghost<Option<Seq<u8>>>, pub alg: Ghost<Option<iana::Algorithm>> }
+    impl CoseKeyBuilder {
+        #[verifier::external_body] pub fn new_ec2_priv_key(curve: iana::EllipticCurve, x: Vec<u8>, y: Vec<u8>, d: Vec<u8>) -> (r: Self) ensures r.x@ == x@, r.y@ == y@, r.d@ == Some(d@), r.alg@.is_none() { unimplemented!() }
+        #[verifier::external_body] pub fn new_ec2_pub_key(curve: iana::EllipticCurve, x: Vec<u8>, y: Vec<u8>) -> (r: Self) ensures r.x@ == x@, r.y@ == y@, r.d@.is_none(), r.alg@.is_none() { unimplemented!() }
+        #[verifier::external_body] pub fn algorithm(self, alg: iana::Algorithm) -> (r: Self) ensures r.x@ == self.x@, r.y@ == self.y@, r.d@ == self.d@, r.alg@ == Some(alg) { unimplemented!() }
+        #[verifier::external_body] pub fn build(self) -> (r: CoseKey)
+            ensures self.alg@ matches Some(a) ==> r == (match self.d@ { Some(d) => spec_ec2_priv(self.x@, self.y@, d, a), None => spec_ec2_pub(self.x@, self.y@, a) })
+        { unimplemented!() }
+    }
+}
+use keymodel::CoseKeyBuilder;
+use p256::ecdsa::SigningKey;
+pub open spec fn spec_pub_of(sk: SecretKey, alg: iana::Algorithm) -> CoseKey { spec_ec2_pub(spec_pub_x(sk), spec_pub_y(sk), alg) }
+pub open spec fn spec_priv_of(sk: SecretKey, alg: iana::Algorithm) -> CoseKey { spec_ec2_priv(spec_pub_x(sk), spec_pub_y(sk), spec_scalar(sk), alg) }
 //@ extract lib impl CoseKeyPair
-//@   external_body from_secret_key
 
 // =====================================================================================================
 // the store and user-validation traits: real text, with the documented contract made formal
@@ -407,6 +458,9 @@ pub mod authenticator {
             //@ extract ahm impl HmacSecretCredentialSupport
             //@ extract ahm impl HmacSecretConfig
             //@   only hmac_secret_mc supports_no_uv
+            // which PRF inputs apply to a credential (select_salts is an iterator chain over a HashMap: assumed; this
+            // oracle names its result so that callers' contracts can mention it)
+            pub uninterp spec fn spec_select_salts(id: Seq<u8>, request: AuthenticatorPrfInputs) -> Option<(Seq<u8>, Option<Seq<u8>>)>;
             //@ extract ahm fn calculate_hmac_secret
             //@ extract ahm fn select_salts
             //@ extract ahm impl Authenticator
@@ -416,19 +470,38 @@ pub mod authenticator {
         //@ source aext passkey-authenticator/src/authenticator/extensions.rs
         //@ extract aext struct Extensions
         //@   pubfields
+        //@   makepub
         impl Extensions { #[verifier::external_body] pub fn list_extensions(&self) -> Option<Vec<get_info::Extension>> { unimplemented!() } }
         //@ extract aext struct MakeExtensionOutputs
         //@   makepub
         //@ extract aext struct GetExtensionOutputs
         //@   noderive
         //@   makepub
-        // extension processing as a function of (configuration, stored secrets, request, uv) -- oracle for the
-        // assumed contracts of make_extensions / get_extensions (iterator-free but deeply nested closures)
-        pub uninterp spec fn spec_get_ext(cfg: Extensions, passkey: Passkey, request: Option<get_assertion::ExtensionInputs>, uv: bool) -> Result<GetExtensionOutputs, StatusCode>;
-        pub uninterp spec fn spec_make_ext(cfg: Extensions, request: Option<make_credential::ExtensionInputs>, uv: bool) -> Result<MakeExtensionOutputs, StatusCode>;
+        use crate::passkey_types::ctap2::extensions::{AuthenticatorPrfGetOutputs, AuthenticatorPrfInputs};
+        use crate::passkey_types::StoredHmacSecret;
+        // C09 at the CTAP level: a PRF output of an assertion is HMAC-SHA-256 keyed with the verification-gated secret
+        // iff the user was verified, else the non-gated one, over the inputs selected for this credential
+        pub open spec fn prf_get_rel(p: AuthenticatorPrfGetOutputs, id: Seq<u8>, stored: Option<StoredHmacSecret>, salts: AuthenticatorPrfInputs, uv: bool) -> bool {
+            stored is Some && hmac_secret::spec_select_salts(id, salts) is Some && ({
+                let st = stored.unwrap(); let sel = hmac_secret::spec_select_salts(id, salts).unwrap();
+                let key = if uv { st.cred_with_uv@ } else { st.cred_without_uv.unwrap()@ };
+                &&& (!uv ==> st.cred_without_uv is Some)
+                &&& p.results.first@ == spec_hmac(key, sel.0)
+                &&& (p.results.second is Some ==> sel.1 is Some && p.results.second.unwrap()@ == spec_hmac(key, sel.1.unwrap())) })
+        }
+        use crate::passkey_types::ctap2::extensions::AuthenticatorPrfMakeOutputs;
+        // C09 at registration: "enabled" exactly when secrets are stored with the new credential; results only with
+        // evaluation-at-creation support, keyed with the secret gated by the uv of the ceremony
+        pub open spec fn prf_make_rel(p: AuthenticatorPrfMakeOutputs, cfg: Extensions, stored: Option<StoredHmacSecret>, input: AuthenticatorPrfInputs, uv: bool) -> bool {
+            &&& cfg.hmac_secret is Some
+            &&& p.enabled == stored.is_some()
+            &&& (p.results matches Some(v) ==> stored is Some && cfg.hmac_secret.unwrap().on_make_credential_support && input.eval is Some
+                  && v.first@ == spec_hmac(if uv { stored.unwrap().cred_with_uv@ } else { stored.unwrap().cred_without_uv.unwrap()@ }, input.eval.unwrap().first@))
+        }
+        // model of #[derive(Default)] on GetExtensionOutputs
+        impl Default for GetExtensionOutputs { fn default() -> (r: Self) ensures r.signed is None, r.unsigned is None { GetExtensionOutputs { signed: None, unsigned: None } } }
         //@ extract aext impl Authenticator
-        //@   only make_extensions get_extensions
-        //@   external_body make_extensions get_extensions
+        //@   only make_extensions make_passkey_extensions get_extensions
     }
     use extensions::{Extensions, GetExtensionOutputs, MakeExtensionOutputs};
     //@ source auth passkey-authenticator/src/authenticator.rs
